@@ -268,6 +268,22 @@ class State:
         return State(self.guard if guard is None else guard, {k: dict(v) for k, v in self.frames.items()})
 
 
+def _refs_by_value(v, frames):
+    """replace references to immutable name-like values (paths, texts) by references to the value itself, so that two
+    states holding references to DIFFERENT such places can be merged (sound only because those values are never written
+    through the reference: restricted to PathV / StrV referents)"""
+    if isinstance(v, VRef) and v.kind == "place" and not v.proj:
+        tgt = frames.get(v.fid, {}).get(v.local)
+        while isinstance(tgt, VRef) and tgt.kind == "val":
+            tgt = tgt.val
+        if isinstance(tgt, VStruct) and tgt.name in ("PathV", "StrV"):
+            return VRef("val", val=tgt)
+        raise Unsupported("reference to a mutable value")
+    if isinstance(v, VStruct):
+        return VStruct(v.name, [_refs_by_value(x, frames) for x in v.f])
+    return v
+
+
 def merge_states(sts):
     sts = [s for s in sts if not z3.is_false(s.guard)]
     if not sts:
@@ -283,6 +299,12 @@ def merge_states(sts):
                 try:
                     fr[loc] = merge(g, fb.get(loc), fa.get(loc)) if (loc in fa and loc in fb) else (fa.get(loc) or fb.get(loc))
                 except Unsupported as e:
+                    if "different references" in str(e):
+                        try:
+                            fr[loc] = merge(g, _refs_by_value(fb.get(loc), s.frames), _refs_by_value(fa.get(loc), acc.frames))
+                            continue
+                        except Unsupported:
+                            pass
                     raise Unsupported("%s (local %s: %r / %r)" % (e, loc, fb.get(loc), fa.get(loc)))
             frames[fid] = fr
         acc = State(simp(z3.Or(acc.guard, g)), frames)
